@@ -55,6 +55,12 @@ type recStores struct {
 	log []func(*memStores)
 	// base: contents the stores had before the run (always survive a truncation)
 	base []func(*memStores)
+	// hold: when armed, the next vote write of the round store announces itself on holdReached and waits for holdRelease
+	// (the kernel is then inside its add-vote request: the point at which a caller may give up)
+	holdMu      sync.Mutex
+	holdArmed   bool
+	holdReached chan struct{}
+	holdRelease chan struct{}
 	// crash-relevant writes only (index into log)
 	points []int
 	rounds map[hr]struct{}
@@ -155,7 +161,37 @@ func cloneSSC(p tmconsensus.SparseSignatureCollection) tmconsensus.SparseSignatu
 	}
 	return out
 }
+// armHold makes the next vote write block; it returns the channels to watch and to release.
+func (r *recStores) armHold() (reached <-chan struct{}, release chan<- struct{}) {
+	r.holdMu.Lock()
+	defer r.holdMu.Unlock()
+	r.holdArmed = true
+	r.holdReached = make(chan struct{})
+	r.holdRelease = make(chan struct{})
+	return r.holdReached, r.holdRelease
+}
+
+func (r *recStores) disarmHold() {
+	r.holdMu.Lock()
+	r.holdArmed = false
+	r.holdMu.Unlock()
+}
+
+func (r *recStores) waitHold() {
+	r.holdMu.Lock()
+	if !r.holdArmed {
+		r.holdMu.Unlock()
+		return
+	}
+	r.holdArmed = false
+	reached, release := r.holdReached, r.holdRelease
+	r.holdMu.Unlock()
+	close(reached)
+	<-release
+}
+
 func (s recRoundStore) OverwriteRoundPrevoteProofs(ctx context.Context, h uint64, r uint32, p tmconsensus.SparseSignatureCollection) error {
+	s.r.waitHold()
 	s.r.mu.Lock()
 	defer s.r.mu.Unlock()
 	pc := cloneSSC(p)
@@ -167,6 +203,7 @@ func (s recRoundStore) OverwriteRoundPrevoteProofs(ctx context.Context, h uint64
 	return err
 }
 func (s recRoundStore) OverwriteRoundPrecommitProofs(ctx context.Context, h uint64, r uint32, p tmconsensus.SparseSignatureCollection) error {
+	s.r.waitHold()
 	s.r.mu.Lock()
 	defer s.r.mu.Unlock()
 	pc := cloneSSC(p)
@@ -236,7 +273,21 @@ var (
 
 // ---------------------------------------------------------------- rig
 
+// concCall is one Handle*Proofs call that the concurrency driver parks between its two phases.
+type concCall struct {
+	done    chan string   // result name, sent when the call returns
+	atGate  chan struct{} // signalled every time the call reaches the gate after its view lookup
+	release chan struct{} // the driver lets it continue
+	cancel  context.CancelFunc
+}
+
 type rig struct {
+	// concurrency driver: the call that is currently being driven towards the gate (nil: calls pass the gate freely)
+	gateMu    sync.Mutex
+	gateOwner *concCall
+	calls     map[int]*concCall
+	syncD     time.Duration // bound of the next sync (0: default)
+
 	w *vc.World
 
 	stores *recStores
@@ -287,6 +338,8 @@ func (r *rig) start() (err error) {
 	ctx, cancel := context.WithCancel(context.Background())
 	wd, wctx := gwatchdog.NewNopWatchdog(ctx, quietLog)
 	r.ctx, r.cancel, r.wd = wctx, cancel, wd
+	r.calls = map[int]*concCall{}
+	VerifSetGate(r.gate)
 
 	tmi.VerifSubscribeAll(func(_ *tmi.Kernel, st *tmi.VerifKState) {
 		r.evMu.Lock()
@@ -337,16 +390,60 @@ func (r *rig) start() (err error) {
 	return nil
 }
 
+// gate is installed as the Mirror's verifGate hook.
+func (r *rig) gate(point string) {
+	if point != "Prevote:afterLookup" && point != "Precommit:afterLookup" {
+		return
+	}
+	r.gateMu.Lock()
+	cc := r.gateOwner
+	r.gateOwner = nil
+	r.gateMu.Unlock()
+	if cc == nil {
+		return
+	}
+	cc.atGate <- struct{}{}
+	<-cc.release
+}
+
+// releaseParked lets every parked call run to its end (used before the rig is stopped).
+func (r *rig) releaseParked() {
+	for c, cc := range r.calls {
+		cc.cancel()
+		close(cc.release)
+		select {
+		case <-cc.done:
+		case <-time.After(2 * time.Second):
+		}
+		delete(r.calls, c)
+	}
+}
+
 func (r *rig) stop() {
+	r.releaseParked()
 	if r.cancel != nil {
 		r.cancel()
 	}
 	if r.m != nil {
-		r.m.Wait()
+		// a kernel that is blocked for good (the property violation "stopped serving") never returns from Wait:
+		// it is abandoned after a bound so that the remaining behaviours are still replayed
+		m := r.m
+		done := make(chan struct{})
+		go func() { m.Wait(); close(done) }()
+		select {
+		case <-done:
+		case <-time.After(3 * time.Second):
+		}
 		r.m = nil
 	}
 	if r.wd != nil {
-		r.wd.Wait()
+		wd := r.wd
+		done := make(chan struct{})
+		go func() { wd.Wait(); close(done) }()
+		select {
+		case <-done:
+		case <-time.After(3 * time.Second):
+		}
 	}
 }
 
@@ -375,14 +472,18 @@ func (r *rig) waitCount(ev string, n int, d time.Duration) bool {
 // sync makes the kernel serve one snapshot request: when it returns, every request the
 // kernel accepted before it has been fully handled, and r.last is the state after it.
 func (r *rig) sync() (*tmi.VerifKState, bool) {
+	d := 10 * time.Second
+	if r.syncD != 0 {
+		d, r.syncD = r.syncD, 0
+	}
 	n := r.count("Snapshot")
 	var v tmconsensus.VersionedRoundView
-	ctx, cancel := context.WithTimeout(r.ctx, 10*time.Second)
+	ctx, cancel := context.WithTimeout(r.ctx, d)
 	defer cancel()
 	if err := r.m.VotingView(ctx, &v); err != nil {
 		return nil, false
 	}
-	if !r.waitCount("Snapshot", n, 10*time.Second) {
+	if !r.waitCount("Snapshot", n, d) {
 		return nil, false
 	}
 	r.evMu.Lock()
